@@ -110,6 +110,53 @@ def run_case(job, ret_files=False):
     return res
 
 
+GROW = {"empty": "one", "txt": "one", "one": "two", "upperonly": "mixedcase"}      # additive changes of a directory's content
+
+
+def run_history(job):
+    """two runs into ONE output directory; between them a directory of the input gains a CMake file (so that, e.g., a
+    sub-directory that was auto-excluded now is processed).  The second run's output must be closed and equal to what a
+    fresh run on the grown tree writes"""
+    parents, contents, node, recursive, auto = job
+    t1 = Tree(parents, contents)
+    c2 = list(contents)
+    c2[node] = GROW[contents[node]]
+    t2 = Tree(parents, c2)
+    box = fsbox.Box("c14h")
+    msgs = []
+    files = {}
+    try:
+        box.build(t1.spec("in"))
+        past = 1_600_000_000
+        for root, dirs, fs in os.walk(box.path("work", "in")):
+            for n in dirs + fs:
+                os.utime(os.path.join(root, n), (past, past))
+        os.utime(box.path("work", "in"), (past, past))
+        with open(box.path("work", "s.yaml"), "w") as f:
+            f.write(f"input:\n  auto_exclude_directories_without_cmake: {str(auto).lower()}\n")
+        argv = ["-s", "s.yaml"] + (["-r"] if recursive else [])
+        r1 = box.run(argv + ["-o", "out", "in"])
+        box.build({k: v for k, v in t2.spec("in").items() if k not in t1.spec("in")})
+        r2 = box.run(argv + ["-o", "out", "in"])
+        r3 = box.run(argv + ["-o", "fresh", "in"])
+        if r1["status"] or r2["status"] or r3["status"]:
+            msgs.append(f"error: run failed: {r1['exc'] or r2['exc'] or r3['exc']}")
+        else:
+            files = box.files("work/out")
+            fresh = box.files("work/fresh")
+            msgs += dirmodel.closure_messages(files, recursive, "in")
+            if files != fresh:
+                diffk = sorted(k for k in set(files) | set(fresh) if files.get(k) != fresh.get(k))
+                msgs.append(f"rerun: after the input grew, a second run into the same output directory differs from a fresh run in {diffk[:4]}")
+        if msgs:
+            msgs = [f"{m}   [tree {t1.describe()} -> node {t1.rel(node)} becomes {dirmodel.CONTENT[c2[node]]}, recursive={recursive}, auto={auto}]" for m in msgs]
+    finally:
+        box.cleanup()
+    msgs = [m.replace(box.root, "<box>") for m in msgs]
+    return {"viol": msgs[:4], "obs": common.digest(sorted(files)), "n": 3, "nt": common.digest(job),
+            "cls": msgs[0].split(":")[0] if msgs else None, "case": {"history": list(job)}}
+
+
 def run(ctx):
     quick = ctx.tier == "quick"
     shapes = dirmodel.shapes(4 if quick else 5, 3)
@@ -151,6 +198,16 @@ def run(ctx):
                     jobs.append((parents, a, recursive, auto, None if len(jobs) % 2 else "P", [], None, False, ro))
     ctx.cov["bounds"] = {"tree_shapes": len(shapes), "runs": len(jobs)}
     ctx.sweep(run_case, jobs, space="trees x patterns x configurations", selftest=5)
+    hjobs = []
+    for parents in shapes:
+        n = len(parents)
+        for node in range(1, n):
+            for c in GROW:
+                a = ["one"] * n
+                a[node] = c
+                for recursive, auto in ((True, True), (True, False), (False, True)):
+                    hjobs.append((parents, a, node, recursive, auto))
+    ctx.sweep(run_history, hjobs, space="two runs into one output directory, the input grows in between", selftest=2)
     ctx.assumptions += ["with auto-exclusion on the input directory keeps a non-excluded .cmake file (domain of C13/C14)",
                         "a run that produces no output at all (excluded input) is C15's business"]
     return RULE
@@ -170,4 +227,6 @@ def attribute(case, msgs):
 
 
 def replay(case):
+    if isinstance(case, dict) and "history" in case:
+        return run_history(tuple(case["history"]))["viol"]
     return run_case(tuple(case))["viol"]
